@@ -230,13 +230,13 @@ def oracleConc (acc : Event → Bool) (groups : List (List Op)) (bs : List Batch
           (where_ (fun b => b.links.contains (linkOf e))).head?
         !(idx.zip (idx.drop 1)).all fun (a, b) => a ≤ b) then some "event-reordered"
     else if !checkChain none none bs then some "configmap-chain-broken"
-    else if bs.any (fun b => (match b.gNew with | some d => !(evs.any fun e => setsCm true e && e.data == some d) | none => false)
-                          || (match b.tNew with | some d => !(evs.any fun e => setsCm false e && e.data == some d) | none => false)) then
+    else if bs.any (fun b => (match b.gNew with | some d => !(evs.any fun e => setsCm true e && e.data.getD 0 == d) | none => false)
+                          || (match b.tNew with | some d => !(evs.any fun e => setsCm false e && e.data.getD 0 == d) | none => false)) then
       some "configmap-data-wrong"
     else
       let fin (g : Bool) : Option Nat := bs.foldl (fun cur b => pick (if g then b.gNew else b.tNew) cur) none
-      let want (g : Bool) : Option Nat := (evs.filter (setsCm g)).getLast?.bind (·.data)
-      if ((want true).isSome && fin true ≠ want true) || ((want false).isSome && fin false ≠ want false) then
+      let want (g : Bool) : Option Nat := (evs.filter (setsCm g)).getLast?.map (·.data.getD 0)
+      if fin true ≠ want true || fin false ≠ want false then
         some "configmap-final-data-wrong"
       else if bs.any (·.full) ≠ evs.any (fun e => e.typ = .generic || e.kind.full) then some "fullsync-flag-wrong"
       else if n ≠ evs.length || nfull ≠ (evs.filter (·.kind.full)).length then some "notify-wrong"
